@@ -1027,24 +1027,24 @@ func ConvertZToMinMaxAltitudekey(inputIndex int64, inputZoom int64, outputZoom i
 	if err != nil {
 		return 0, 0, err
 	}
-	upperBound, err := convertZToMinAltitudekey(inputIndex+1, inputZoom, outputZoom, zBaseExponent, zBaseOffset)
-	if err != nil {
-		return 0, 0, err
+	// upper bound: the last altitudekey that intersects the voxel, i.e. ceil(top) - 1 where
+	// top = (inputIndex+1) * 2^a + zBaseOffset * 2^b is the (exclusive) top of the voxel in altitudekey units.
+	// (Taking the lower bound of inputIndex+1 instead would floor the top and lose the last altitudekey
+	// whenever the top is not aligned, and would reject the highest index of a zoom level.)
+	b := outputZoom - zBaseExponent
+	a := (consts.ZOriginValue - inputZoom) + b
+	m := min(a, b, 0)
+	top := common.CalculateArithmeticShift(inputIndex+1, a-m) + common.CalculateArithmeticShift(zBaseOffset, b-m)
+	upperBound := -common.CalculateArithmeticShift(-top, m) - 1
+	if upperBound < lowerBound {
+		upperBound = lowerBound
 	}
 
-	// Determine the vertical index/indices to return.
-	// a) always return the lowerBound index. Regardless of the difference between the inputZoom and outputZoom,
-	// mathematically the altitude associated with the lower bounds will always satisfy the solution set.
-	// b) cycle through indices from lowerBounds+1 to upperBounds with i to find any possible additional indexes
-	// that satisfy the solution set.
-	// but only output (minimum key, maximum key) as (lowerBound, upperBound - 1)
-	minAltitudeKey = lowerBound
-	maxAltitudeKey = upperBound - 1
-	if minAltitudeKey > maxAltitudeKey {
-		return minAltitudeKey, minAltitudeKey, nil
-	} else {
-		return minAltitudeKey, maxAltitudeKey, nil
+	if _, ok := validateIndexExists(upperBound, outputZoom, false); !ok {
+		return 0, 0, errors.NewSpatialIdError(errors.InputValueErrorCode, "output index does not exist with given outputZoom, zBaseExponent, and zBaseOffset")
 	}
+
+	return lowerBound, upperBound, nil
 }
 
 func convertZToMinAltitudekey(inputIndex int64, inputZoom int64, outputZoom int64, zBaseExponent int64, zBaseOffset int64) (int64, error) {
